@@ -1,4 +1,339 @@
-//! C12: not built yet.
-use crate::util::Ctx;
+//! C12 — schema serialization round-trips and preserves order.
+//!
+//! Stream `c12.roundtrip`: structured schema documents that build cleanly ↦ the definitions `Schema::to_ast`
+//! emits (read back from the serialized text) and the order-sensitive dump of the re-parsed schema, against
+//! the Lean model (Model/SchemaSerialize.lean on top of the SchemaBuilder model).
+//! Oracle (from the property text, on the implementation): serialized text re-parses without build errors,
+//! `==`, order-sensitive dump equal, second serialization byte-identical, valid stays valid.
+use crate::p13::{assemble, build_schema, dump_schema, messages, show, Mode, Tag, D, KIND_CH};
+use crate::util::*;
+use apollo_compiler::ast;
+use apollo_compiler::schema::{ExtendedType, ExtensionId};
+use apollo_compiler::Schema;
 
-pub fn run(_ctx: &mut Ctx) {}
+/// order-sensitive dump of everything the property lists: types, fields (with arguments), enum values,
+/// union members, implemented interfaces, directive applications — each component as its own serialization
+fn order_dump(s: &Schema, regroup: bool) -> String {
+    let mut out = vec![];
+    for (name, ty) in &s.types {
+        if ty.is_built_in() && ty.extensions().is_empty() { continue; }
+        type Items<'a> = Vec<(Option<&'a ExtensionId>, String)>;
+        let f = |n: &apollo_compiler::Name, s: String| format!("{n}={}", s.replace('\n', " "));
+        let dirs_i: Items = ty.directives().iter().map(|c| (c.origin.extension_id(), c.node.to_string())).collect();
+        let (k, ifs_i, ms_i): (usize, Items, Items) = match ty {
+            ExtendedType::Scalar(_) => (0, vec![], vec![]),
+            ExtendedType::Object(o) => (1, o.implements_interfaces.iter().map(|c| (c.origin.extension_id(), c.name.to_string())).collect(),
+                o.fields.iter().map(|(n, c)| (c.origin.extension_id(), f(n, c.node.to_string()))).collect()),
+            ExtendedType::Interface(o) => (2, o.implements_interfaces.iter().map(|c| (c.origin.extension_id(), c.name.to_string())).collect(),
+                o.fields.iter().map(|(n, c)| (c.origin.extension_id(), f(n, c.node.to_string()))).collect()),
+            ExtendedType::Union(o) => (3, vec![], o.members.iter().map(|c| (c.origin.extension_id(), c.name.to_string())).collect()),
+            ExtendedType::Enum(o) => (4, vec![], o.values.iter().map(|(n, c)| (c.origin.extension_id(), f(n, c.node.to_string()))).collect()),
+            ExtendedType::InputObject(o) => (5, vec![], o.fields.iter().map(|(n, c)| (c.origin.extension_id(), f(n, c.node.to_string()))).collect()),
+        };
+        // `regroup` (used only to classify a failure as the recorded finding): every list rearranged as
+        // "definition components, then per extension", the extensions in the recorded discovery order:
+        // first appearance over directives, then interfaces, then fields / values / members
+        let mut exts: Vec<&ExtensionId> = vec![];
+        for (o, _) in dirs_i.iter().chain(ifs_i.iter()).chain(ms_i.iter()) { if let Some(e) = o { if !exts.contains(e) { exts.push(e); } } }
+        let arrange = |items: Items| -> Vec<String> {
+            if !regroup { return items.into_iter().map(|x| x.1).collect(); }
+            let mut v: Vec<String> = items.iter().filter(|x| x.0.is_none()).map(|x| x.1.clone()).collect();
+            for e in &exts { v.extend(items.iter().filter(|x| x.0 == Some(*e)).map(|x| x.1.clone())); }
+            v
+        };
+        let (dirs, ifs, ms) = (arrange(dirs_i), arrange(ifs_i), arrange(ms_i));
+        out.push(format!("{name}/{}{{{}}}{{{}}}{{{}}}", KIND_CH[k], dirs.join(","), ifs.join(","), ms.join(" ; ")));
+    }
+    let sd = &s.schema_definition;
+    let sdirs: Vec<String> = sd.directives.iter().map(|c| c.node.to_string()).collect();
+    let r = |x: &Option<apollo_compiler::schema::ComponentName>| x.as_ref().map(|c| c.name.to_string()).unwrap_or("-".into());
+    format!("{} || schema{{{}}} q={} m={} s={}", out.join(" | "), sdirs.join(","), r(&sd.query), r(&sd.mutation), r(&sd.subscription))
+}
+
+/// the definitions of a schema document, names only (the canonical form the model prints for `toAst`)
+fn ast_line(text: &str) -> String {
+    let doc = match ast::Document::parse(text, "ser.graphql") { Ok(d) => d, Err(e) => e.partial };
+    let names = |v: Vec<String>| v.join(",");
+    let mut out = vec![];
+    for def in &doc.definitions {
+        use ast::Definition as A;
+        let dl = |d: &ast::DirectiveList| names(d.iter().map(|x| x.name.to_string()).collect());
+        let fl = |f: &Vec<apollo_compiler::Node<ast::FieldDefinition>>| names(f.iter().map(|x| x.name.to_string()).collect());
+        let il = |f: &Vec<apollo_compiler::Node<ast::InputValueDefinition>>| names(f.iter().map(|x| x.name.to_string()).collect());
+        let nl = |f: &Vec<apollo_compiler::Name>| names(f.iter().map(|x| x.to_string()).collect());
+        let ro = |f: &Vec<apollo_compiler::Node<(ast::OperationType, apollo_compiler::Name)>>| names(f.iter().map(|x| format!("{}={}", x.0.name(), x.1)).collect());
+        let line = match def {
+            A::SchemaDefinition(d) => format!("S {{d:{}}}{{i:}}{{m:{}}}", dl(&d.directives), ro(&d.root_operations)),
+            A::SchemaExtension(d) => format!("X {{d:{}}}{{i:}}{{m:{}}}", dl(&d.directives), ro(&d.root_operations)),
+            A::DirectiveDefinition(d) => format!("D {}{{d:}}{{i:}}{{m:}}", d.name),
+            A::ScalarTypeDefinition(d) => format!("Ts {}{{d:{}}}{{i:}}{{m:}}", d.name, dl(&d.directives)),
+            A::ScalarTypeExtension(d) => format!("Es {}{{d:{}}}{{i:}}{{m:}}", d.name, dl(&d.directives)),
+            A::ObjectTypeDefinition(d) => format!("To {}{{d:{}}}{{i:{}}}{{m:{}}}", d.name, dl(&d.directives), nl(&d.implements_interfaces), fl(&d.fields)),
+            A::ObjectTypeExtension(d) => format!("Eo {}{{d:{}}}{{i:{}}}{{m:{}}}", d.name, dl(&d.directives), nl(&d.implements_interfaces), fl(&d.fields)),
+            A::InterfaceTypeDefinition(d) => format!("Ti {}{{d:{}}}{{i:{}}}{{m:{}}}", d.name, dl(&d.directives), nl(&d.implements_interfaces), fl(&d.fields)),
+            A::InterfaceTypeExtension(d) => format!("Ei {}{{d:{}}}{{i:{}}}{{m:{}}}", d.name, dl(&d.directives), nl(&d.implements_interfaces), fl(&d.fields)),
+            A::UnionTypeDefinition(d) => format!("Tu {}{{d:{}}}{{i:}}{{m:{}}}", d.name, dl(&d.directives), nl(&d.members)),
+            A::UnionTypeExtension(d) => format!("Eu {}{{d:{}}}{{i:}}{{m:{}}}", d.name, dl(&d.directives), nl(&d.members)),
+            A::EnumTypeDefinition(d) => format!("Te {}{{d:{}}}{{i:}}{{m:{}}}", d.name, dl(&d.directives), names(d.values.iter().map(|v| v.value.to_string()).collect())),
+            A::EnumTypeExtension(d) => format!("Ee {}{{d:{}}}{{i:}}{{m:{}}}", d.name, dl(&d.directives), names(d.values.iter().map(|v| v.value.to_string()).collect())),
+            A::InputObjectTypeDefinition(d) => format!("Tn {}{{d:{}}}{{i:}}{{m:{}}}", d.name, dl(&d.directives), il(&d.fields)),
+            A::InputObjectTypeExtension(d) => format!("En {}{{d:{}}}{{i:}}{{m:{}}}", d.name, dl(&d.directives), il(&d.fields)),
+            A::OperationDefinition(_) => "O".to_string(),
+            A::FragmentDefinition(_) => "F".to_string(),
+        };
+        out.push(line);
+    }
+    out.join(";")
+}
+
+struct Rt { text: String, re: Schema, re_errors: Vec<String> }
+
+fn roundtrip(orig: &Schema) -> Rt {
+    let text = orig.to_string();
+    let b = build_schema(&[text.clone()], false, false);
+    Rt { text, re_errors: messages(&b.errors), re: b.schema }
+}
+
+/// the property, evaluated on the implementation; `orig` was built without errors
+fn oracle(ctx: &mut Ctx, inp: &str, orig: &Schema, rt: &Rt) {
+    let short = |s: &str| s.replace('\n', " ");
+    if !rt.re_errors.is_empty() {
+        ctx.fail("reparse-has-build-errors", inp, &format!("serialized `{}` re-parses with {:?}", short(&rt.text), rt.re_errors));
+        return;
+    }
+    if rt.re != *orig { ctx.fail("reparse-not-equal", inp, &format!("serialized `{}` re-parses to a schema that is != the original", short(&rt.text))); }
+    let (a, b) = (order_dump(orig, false), order_dump(&rt.re, false));
+    if a != b {
+        // classification only: is the difference exactly "lists regrouped by extensions() order"?
+        if b == order_dump(orig, true) {
+            ctx.fail("extension-discovery-order-reorders-components", inp, &format!("serialized `{}`: original order {a} / re-parsed order {b}", short(&rt.text)));
+        } else {
+            ctx.fail("reparse-order-differs", inp, &format!("serialized `{}`: original order {a} / re-parsed order {b}", short(&rt.text)));
+        }
+    }
+    let text2 = rt.re.to_string();
+    if text2 != rt.text { ctx.fail("reserialization-not-identical", inp, &format!("first `{}` second `{}`", short(&rt.text), short(&text2))); }
+    let v = orig.clone().validate();
+    if let Err(e) = &v { if std::env::var("C12_DEBUG").is_ok() { eprintln!("INVALID {inp}: {:?}", e.errors.iter().map(|d| d.error.to_string()).take(2).collect::<Vec<_>>()); } }
+    if v.is_ok() {
+        ctx.stat("valid_schemas");
+        if let Err(e) = rt.re.clone().validate() {
+            ctx.fail("valid-becomes-invalid", inp, &format!("serialized `{}`: {:?}", short(&rt.text), e.errors.iter().map(|d| d.error.to_string()).collect::<Vec<_>>()));
+        }
+    }
+}
+
+fn structured_case(ctx: &mut Ctx, srcs: &[Vec<D>]) {
+    let (texts, _bases, enc_srcs) = assemble(srcs);
+    let b = build_schema(&texts, false, false);
+    if b.errors.is_some() { ctx.stat("generated_document_has_build_errors"); return; }
+    let inp = show(&texts);
+    let rt = roundtrip(&b.schema);
+    let line = format!("AST[{}]RT:{}E[{}]", ast_line(&rt.text), dump_schema(&rt.re, &Mode::Ordinal(Default::default())), rt.re_errors.len());
+    ctx.case("c12.roundtrip", &[enc(&enc_srcs)], &line);
+    ctx.stat("clean_structured_documents");
+    let n_ext: usize = b.schema.types.values().map(|t| t.extensions().len()).sum::<usize>() + b.schema.schema_definition.extensions().len();
+    if n_ext > 0 { ctx.stat("documents_with_extensions"); }
+    if n_ext > 1 { ctx.stat("documents_with_two_or_more_extensions"); }
+    if order_dump(&b.schema, true) != order_dump(&b.schema, false) { ctx.stat("documents_with_inconsistent_extension_discovery_order"); }
+    if rt.text.contains("schema") { ctx.stat("explicit_schema_definition_or_extension_serialized"); } else { ctx.stat("implicit_schema_definition"); }
+    oracle(ctx, &inp, &b.schema, &rt);
+    ctx.nontrivial(&inp);
+}
+
+// ---------------------------------------------------------------- generator: clean by construction
+
+fn shuffle<T>(ctx: &mut Ctx, v: &mut Vec<T>) { for i in (1..v.len()).rev() { let j = ctx.rng.below(i + 1); v.swap(i, j); } }
+
+fn take(ctx: &mut Ctx, pool: &mut Vec<String>, max: usize) -> Vec<String> {
+    let n = ctx.rng.below(max + 1).min(pool.len());
+    pool.drain(..n).collect()
+}
+
+/// `valid`: keep the document valid (defined directives, implemented interface fields, non-empty types)
+fn gen_clean(ctx: &mut Ctx, valid: bool) -> Vec<D> {
+    let mut defs: Vec<D> = vec![];
+    let mut names: Vec<&str> = vec!["Query", "T0", "T1", "T2", "Mutation", "Subscription", "T3"];
+    if !ctx.rng.chance(2, 3) { names.remove(0); }
+    let nt = 1 + ctx.rng.below(4);
+    let mut picked: Vec<&str> = vec![];
+    for n in names.iter().take(6) { if picked.len() < nt && (picked.is_empty() && *n == "Query" || ctx.rng.chance(1, 2)) { picked.push(n); } }
+    if picked.is_empty() { picked.push("T0"); }
+    let mut objects: Vec<String> = vec![];
+    let dir_pool: &[&str] = if valid { &["d0", "d1"] } else { &["d0", "d1", "deprecated", "zz"] };
+    let dirs = |ctx: &mut Ctx, max: usize| -> Vec<String> { (0..ctx.rng.below(max + 1)).map(|_| ctx.rng.pick(dir_pool).to_string()).collect() };
+    for n in &picked {
+        let root_name = matches!(*n, "Query" | "Mutation" | "Subscription");
+        let kind = if root_name { if valid || ctx.rng.chance(5, 6) { 1 } else { ctx.rng.below(6) } } else { ctx.rng.below(6) };
+        if kind == 1 { objects.push(n.to_string()); }
+        let mut pool: Vec<String> = match kind { 3 => vec![], 4 => (0..7).map(|i| format!("V{i}")).collect(), _ => (0..7).map(|i| format!("f{i}")).collect() };
+        if kind == 3 { pool = vec!["U0".into(), "U1".into(), "U2".into(), "U3".into()]; }
+        shuffle(ctx, &mut pool);
+        let mut ipool: Vec<String> = if kind == 1 || kind == 2 { if valid { vec!["I0".into()] } else { vec!["I0".into(), "I1".into(), "I2".into()] } } else { vec![] };
+        shuffle(ctx, &mut ipool);
+        let n_ext = if ctx.rng.chance(1, 3) { 0 } else { 1 + ctx.rng.below(3) };
+        for j in 0..=n_ext {
+            let tag = if j == 0 { Tag::TypeDef } else { Tag::TypeExt };
+            let mut d = D { tag, kind, name: n.to_string(), dirs: dirs(ctx, 2), ifaces: take(ctx, &mut ipool, 2), members: vec![] };
+            if kind != 0 { d.members = take(ctx, &mut pool, 3).into_iter().map(|m| (m, String::new())).collect(); }
+            if valid && j == 0 && kind != 0 && d.members.is_empty() { if let Some(m) = pool.pop() { d.members.push((m, String::new())); } }
+            if valid && (kind == 1 || kind == 2) && !d.ifaces.is_empty() && !d.members.iter().any(|m| m.0 == "i0") { d.members.push(("i0".into(), String::new())); }
+            if tag == Tag::TypeExt && d.dirs.is_empty() && d.ifaces.is_empty() && d.members.is_empty() { d.dirs.push("d0".into()); }
+            defs.push(d);
+        }
+    }
+    if valid {
+        // what the generated types refer to
+        defs.push(D { tag: Tag::TypeDef, kind: 2, name: "I0".into(), dirs: vec![], ifaces: vec![], members: vec![("i0".into(), String::new())] });
+        for u in ["U0", "U1", "U2", "U3"] { defs.push(D { tag: Tag::TypeDef, kind: 1, name: u.into(), dirs: vec![], ifaces: vec![], members: vec![("u".into(), String::new())] }); }
+        defs.push(D { tag: Tag::DirDef, kind: 0, name: "d0".into(), dirs: vec![], ifaces: vec![], members: vec![] });
+        defs.push(D { tag: Tag::DirDef, kind: 0, name: "d1".into(), dirs: vec![], ifaces: vec![], members: vec![] });
+    } else {
+        if ctx.rng.chance(1, 3) { defs.push(D { tag: Tag::DirDef, kind: 0, name: "d0".into(), dirs: vec![], ifaces: vec![], members: vec![] }); }
+        if ctx.rng.chance(1, 4) { defs.push(D { tag: Tag::DirDef, kind: 0, name: ctx.rng.pick(&["skip", "include", "deprecated", "specifiedBy"]).to_string(), dirs: vec![], ifaces: vec![], members: vec![] }); }
+        if ctx.rng.chance(1, 5) { defs.push(D { tag: Tag::TypeExt, kind: 0, name: ctx.rng.pick(&["Int", "ID", "String"]).to_string(), dirs: vec!["d0".into(), "d1".into()], ifaces: vec![], members: vec![] }); }
+        if ctx.rng.chance(1, 8) { defs.push(D { tag: Tag::TypeExt, kind: 1, name: "__Type".into(), dirs: dirs(ctx, 1), ifaces: vec![], members: vec![("zq0".into(), String::new())] }); }
+    }
+    // schema definition / extensions
+    let mode = ctx.rng.below(4);
+    let mut ops: Vec<&str> = vec!["query", "mutation", "subscription"];
+    shuffle(ctx, &mut ops);
+    let target = |ctx: &mut Ctx, op: &str| -> String {
+        if valid || ctx.rng.chance(2, 3) {
+            let dflt = match op { "query" => "Query", "mutation" => "Mutation", _ => "Subscription" };
+            if objects.iter().any(|o| o == dflt) && ctx.rng.chance(2, 3) { return dflt.to_string(); }
+            if !objects.is_empty() { return objects[ctx.rng.below(objects.len())].clone(); }
+            if valid { return "U0".into(); }
+        }
+        ctx.rng.pick(&["T0", "Query", "Nope"]).to_string()
+    };
+    if mode >= 2 {
+        let n0 = 1 + ctx.rng.below(2);
+        let roots: Vec<(String, String)> = ops.drain(..n0).map(|op| (op.to_string(), target(ctx, op))).collect();
+        defs.push(D { tag: Tag::SchemaDef, kind: 0, name: String::new(), dirs: dirs(ctx, 2), ifaces: vec![], members: roots });
+    }
+    if mode >= 1 {
+        for _ in 0..ctx.rng.below(3) {
+            let mut d = D { tag: Tag::SchemaExt, kind: 0, name: String::new(), dirs: dirs(ctx, 2), ifaces: vec![], members: vec![] };
+            if mode >= 2 && !ops.is_empty() && ctx.rng.chance(1, 2) { let op = ops.remove(0); d.members.push((op.to_string(), target(ctx, op))); }
+            if d.dirs.is_empty() && d.members.is_empty() { d.dirs.push("d1".into()); }
+            defs.push(d);
+        }
+    }
+    shuffle(ctx, &mut defs);
+    if valid {
+        // a root `query` must exist for validity: keep documents that have it, otherwise add `Query`
+        if !defs.iter().any(|d| d.tag == Tag::TypeDef && d.name == "Query") && !defs.iter().any(|d| d.tag == Tag::SchemaDef && d.members.iter().any(|m| m.0 == "query")) {
+            defs.push(D { tag: Tag::TypeDef, kind: 1, name: "Query".into(), dirs: vec![], ifaces: vec![], members: vec![("q".into(), String::new())] });
+        }
+    }
+    defs
+}
+
+fn t(kind: usize, name: &str, dirs: &[&str], members: &[&str]) -> D { D { tag: Tag::TypeDef, kind, name: name.into(), dirs: dirs.iter().map(|s| s.to_string()).collect(), ifaces: vec![], members: members.iter().map(|m| (m.to_string(), String::new())).collect() } }
+fn e(kind: usize, name: &str, dirs: &[&str], members: &[&str]) -> D { D { tag: Tag::TypeExt, ..t(kind, name, dirs, members) } }
+fn ifs(mut d: D, i: &[&str]) -> D { d.ifaces = i.iter().map(|s| s.to_string()).collect(); d }
+fn sch(tag: Tag, dirs: &[&str], roots: &[(&str, &str)]) -> D { D { tag, kind: 0, name: String::new(), dirs: dirs.iter().map(|s| s.to_string()).collect(), ifaces: vec![], members: roots.iter().map(|(a, b)| (a.to_string(), b.to_string())).collect() } }
+
+fn regressions() -> Vec<Vec<D>> {
+    vec![
+        // the probe of the property: extension order is the discovery order (directives first)
+        vec![t(1, "Q", &[], &["f"]), e(1, "Q", &[], &["a"]), e(1, "Q", &["d"], &["b"])],
+        vec![t(1, "Q", &[], &["f"]), e(1, "Q", &["d"], &["a"]), e(1, "Q", &[], &["b"])],
+        vec![t(1, "Q", &[], &["f"]), ifs(e(1, "Q", &[], &["a"]), &[]), ifs(e(1, "Q", &[], &["b"]), &["I"]), ],
+        vec![t(4, "E", &[], &["A"]), e(4, "E", &[], &["B"]), e(4, "E", &["d"], &["C"]), e(4, "E", &["d"], &[])],
+        vec![t(3, "U", &["d"], &["A"]), e(3, "U", &[], &["B"]), e(3, "U", &["d"], &["C"])],
+        vec![t(5, "N", &[], &[]), e(5, "N", &[], &["a"]), e(5, "N", &["d"], &["b"]), e(5, "N", &[], &["c"])],
+        // extensions in front of the definition, empty definition
+        vec![e(1, "Q", &["d"], &["a"]), e(1, "Q", &[], &["b"]), t(1, "Q", &[], &[])],
+        // built-ins
+        vec![e(0, "Int", &["d"], &[]), t(1, "Query", &[], &["a"]), e(1, "__Type", &["d"], &["zq"]), D { tag: Tag::DirDef, kind: 0, name: "skip".into(), dirs: vec![], ifaces: vec![], members: vec![] }],
+        // schema definition: explicit, implicit, implicit + extension, non-default roots, default names that are not objects
+        vec![t(1, "Query", &[], &["a"]), t(1, "Mutation", &[], &["a"])],
+        vec![t(1, "Query", &[], &["a"]), sch(Tag::SchemaExt, &["d"], &[])],
+        vec![t(1, "Query", &[], &["a"]), t(1, "Mutation", &[], &["a"]), sch(Tag::SchemaDef, &[], &[("query", "Query")])],
+        vec![t(1, "Query", &[], &["a"]), t(1, "Mutation", &[], &["a"]), sch(Tag::SchemaDef, &[], &[("query", "Query"), ("mutation", "Mutation")])],
+        vec![t(1, "Query", &[], &["a"]), t(3, "Mutation", &[], &["Query"]), sch(Tag::SchemaDef, &[], &[("query", "Query")])],
+        vec![t(1, "Query", &[], &["a"]), t(1, "T0", &[], &["a"]), sch(Tag::SchemaDef, &[], &[("query", "T0")]), sch(Tag::SchemaExt, &[], &[("mutation", "Query")]), sch(Tag::SchemaExt, &["d"], &[("subscription", "T0")])],
+        vec![sch(Tag::SchemaExt, &["d"], &[("mutation", "T0")]), sch(Tag::SchemaDef, &["e"], &[("query", "T0")]), t(1, "T0", &[], &["a"])],
+        vec![t(0, "S", &[], &[])],
+    ]
+}
+
+// ---------------------------------------------------------------- free text (oracle only)
+
+const RICH: [&str; 30] = [
+    "\"\"\"the query\"\"\" type Query { \"field a\" a(x: Int = 1 @d0, y: [String!]! = [\"s\"], z: In = {a: 1}): Int @deprecated(reason: \"r\") b: [T0!]! }",
+    "type Query { q: Int }",
+    "extend type Query @d0(x: 1) { c(b: Boolean, a: Float): T0 }",
+    "extend type Query { d: String }",
+    "extend type Query @d1 { e: ID }",
+    "type T0 implements I0 { i: Int t(last: Int, first: Int): T0 }",
+    "extend type T0 implements I1 { j(a: [Int] = [1, 2]): ID }",
+    "extend type T0 @d1 { k: Int }",
+    "\"iface\" interface I0 { i: Int }",
+    "interface I1 { j(a: [Int]): ID }",
+    "extend interface I0 @d0 { k: Int }",
+    "extend interface I1 implements I0 { i: Int }",
+    "\"u\" union U @d0 = Query | T0",
+    "extend union U = T1",
+    "extend union U @d1 = T2",
+    "type T1 { a: Int } type T2 { a: Int }",
+    "enum E { \"first\" A @deprecated B }",
+    "extend enum E { C }",
+    "extend enum E @d0 { D }",
+    "input In { a: Int = 3 b: In c: [E] = [A] }",
+    "extend input In { d: String = \"x\\ny\" }",
+    "extend input In @d1 { e: Float = 1.5e3 }",
+    "scalar Sc @specifiedBy(url: \"https://example.com\")",
+    "extend scalar Sc @d0",
+    "extend scalar Int @d1",
+    "directive @d0(x: Int) repeatable on OBJECT | SCHEMA | UNION | ENUM | SCALAR | INTERFACE | ARGUMENT_DEFINITION | INPUT_OBJECT",
+    "directive @d1 repeatable on OBJECT | SCHEMA | UNION | ENUM | SCALAR | INTERFACE | INPUT_OBJECT",
+    "\"desc\" schema @d0 { query: Query }",
+    "extend schema @d0(x: 2) { subscription: T0 }",
+    "extend schema @d1 { mutation: T1 }",
+];
+
+fn rich_case(ctx: &mut Ctx, picks: &[usize]) {
+    let text: String = picks.iter().map(|i| format!("{}\n", RICH[*i])).collect();
+    let b = build_schema(&[text.clone()], false, false);
+    if b.errors.is_some() { ctx.stat("rich_document_has_build_errors"); return; }
+    ctx.stat("clean_rich_documents");
+    let rt = roundtrip(&b.schema);
+    oracle(ctx, &text.replace('\n', " "), &b.schema, &rt);
+}
+
+pub fn run(ctx: &mut Ctx) {
+    for ds in regressions() {
+        structured_case(ctx, &[ds.clone()]);
+        if ds.len() > 1 { structured_case(ctx, &[ds[..1].to_vec(), ds[1..].to_vec()]); }
+    }
+    let n = if ctx.thorough { 40_000 } else { 4_000 };
+    for i in 0..n {
+        let ds = gen_clean(ctx, i % 3 == 0);
+        if ds.len() > 2 && ctx.rng.chance(1, 4) { let c = 1 + ctx.rng.below(ds.len() - 1); structured_case(ctx, &[ds[..c].to_vec(), ds[c..].to_vec()]); }
+        else { structured_case(ctx, &[ds]); }
+    }
+    let n_r = if ctx.thorough { 30_000 } else { 3_000 };
+    for _ in 0..n_r {
+        // every snippet at most once (no collisions), random order, random subset
+        let mut idx: Vec<usize> = (0..RICH.len()).filter(|i| *i != 1).collect();
+        shuffle(ctx, &mut idx);
+        let k = 2 + ctx.rng.below(idx.len() - 2);
+        let mut picks: Vec<usize> = idx[..k].to_vec();
+        if !picks.contains(&0) { picks.push(1); }
+        // what a snippet needs in order to build (and mostly validate): its definition, the types it names
+        let deps: [(usize, &[usize]); 18] = [(0, &[19, 16, 5, 25]), (5, &[8]), (6, &[5, 9]), (7, &[5]), (10, &[8]), (11, &[9, 8]), (12, &[5]), (13, &[12, 15]), (14, &[12, 15]),
+            (17, &[16]), (18, &[16]), (19, &[16]), (20, &[19]), (21, &[19]), (23, &[22]), (28, &[5]), (29, &[15]), (2, &[5])];
+        loop {
+            let mut add = vec![];
+            for (i, need) in deps.iter() { if picks.contains(i) { for n in need.iter() { if !picks.contains(n) && !add.contains(n) { add.push(*n); } } } }
+            if add.is_empty() { break; }
+            // dependencies go to random places: definitions may follow their extensions
+            for n in add { let at = ctx.rng.below(picks.len() + 1); picks.insert(at, n); }
+        }
+        if ctx.rng.chance(3, 4) { for n in [25usize, 26] { if !picks.contains(&n) { picks.push(n); } } }
+        rich_case(ctx, &picks);
+    }
+}
